@@ -35,7 +35,13 @@ RULE = ('fitted GaussianMultivariate models with 2-6 columns (latent 2-factor no
         'the normal scores Z of the unconditioned output columns are regressed on the same seed\'s '
         'RandomState(seed).standard_normal((n, m)) stream G: an exact fit Z = 1a\' + GB identifies the output law '
         'as N(a, B\'B), which must equal (S12 S22^-1 z, Schur complement) - deterministic, no statistics; where '
-        'the fit is not exact (another generator) the deep mode falls back to moment bands on n = 20000')
+        'the fit is not exact (another generator) the deep mode falls back to moment bands on n = 20000.  FIT '
+        'HISTORY (tie and search, quick tier too): the same GaussianMultivariate object is fitted on table A, used '
+        'for conditional samples on every proper subset (dict and Series), fitted again on B (same labels, other '
+        'correlation / one more column / one column fewer), optionally back to A or a third table; the tie runs the '
+        'model - a function of the CURRENT correlation only - against that object; the search requires the seeded '
+        'sample (bitwise) and the moments handed to the sampler (1e-12) to equal those of a FRESH object fitted once '
+        'on the last table')
 PARTIAL = ['conditional_law_partial: that N(mu_bar, Sigma_bar) IS the conditional law of a partitioned normal is '
            'the classical theorem, not re-proved (its algebraic core - residual uncorrelated with the conditioned '
            'block, residual covariance = Schur complement - is proved); that numpy draws from N(mean, cov) is in '
@@ -61,6 +67,7 @@ CLS_PSD = 'GaussianMultivariate.sample:conditional-covariance-not-symmetric-psd'
 CLS_MODIFIED = 'GaussianMultivariate.sample:conditions-object-modified'
 CLS_RAISES = 'GaussianMultivariate.sample:raises-on-valid-conditions'
 CLS_STAT = 'GaussianMultivariate.sample:sample-moments-off-conditional-law'
+CLS_HISTORY = 'GaussianMultivariate.sample:conditional-law-depends-on-fit-history'
 
 STR_POOL = ['b', 'c', 'a', 'B', 'a1', 'Z9', '10', '9', 'x_2', 'd', 'aa', 'C']
 INT_POOL = [3, -1, 10, 2, 7, 0, 25, -8, 100, 4]
@@ -97,13 +104,13 @@ def spec_key(spec):
 _MODELS = {}
 
 
-def build(spec):
-    """deterministic table + fitted model from a spec."""
-    key = spec_key(spec)
-    if key in _MODELS:
-        return _MODELS[key]
-    from copulas.multivariate import GaussianMultivariate
-    cls = _classes()
+def plain(spec):
+    """the spec of the LAST fit, without the fit history."""
+    return {k: v for k, v in spec.items() if k != 'refit_from'}
+
+
+def make_table(spec):
+    """deterministic training table of a (plain) spec."""
     d = spec['d']
     rs = np.random.RandomState(spec['seed'])
     A = rs.randn(d, 2)
@@ -124,16 +131,57 @@ def build(spec):
         else:
             x = loc + scale * u[:, j]
         data[lab] = x
-    df = pd.DataFrame(data)
+    return pd.DataFrame(data)
+
+
+def all_subsets(labels):
+    return [list(c) for r in range(1, len(labels)) for c in itertools.combinations(labels, r)]
+
+
+def build(spec):
+    """deterministic table + fitted model from a spec.  With `spec['refit_from'] = [spec_1, ..., spec_k]` it
+    is ONE object with a history: fit(table_1), conditional samples on every proper non-empty subset of its
+    columns (dict and Series), ..., fit(table_k), conditional samples, and finally fit(table of spec)."""
+    key = spec_key(spec)
+    if key in _MODELS:
+        return _MODELS[key]
+    from copulas.multivariate import GaussianMultivariate
+    cls = _classes()
+    history = list(spec.get('refit_from', []))
+    dist = {}
+    for sp in history + [spec]:
+        for lab, dn in zip(sp['labels'], sp['dists']):
+            dist[lab] = cls[dn]
+    df = make_table(plain(spec))
     state = np.random.get_state()
     try:
         np.random.seed(spec['seed'] % (2 ** 32))
-        model = GaussianMultivariate(distribution={lab: cls[dn] for lab, dn in zip(spec['labels'], spec['dists'])})
+        model = GaussianMultivariate(distribution=dist)
+        for sp in history:
+            tab = make_table(plain(sp))
+            model.fit(tab)
+            for i, sub in enumerate(all_subsets(sp['labels'])):
+                cond = {k: float(np.quantile(tab[k].to_numpy(), 0.35 + 0.05 * (i % 7))) for k in sub}
+                for c in (cond, pd.Series(cond)) if i % 3 == 0 else (cond,):
+                    try:
+                        model.sample(2, c)
+                    except Exception:  # noqa  (the per-call oracles report failures; here only the history matters)
+                        pass
         model.fit(df)
     finally:
         np.random.set_state(state)
     _MODELS[key] = (model, df)
     return model, df
+
+
+def derive_spec(rng, spec, labels=None):
+    """another table for (mostly) the same labels: different correlation, rows, marginal parameters; shared
+    labels keep their distribution class so that one `distribution` dict serves the whole history."""
+    labels = list(spec['labels']) if labels is None else list(labels)
+    old = dict(zip(spec['labels'], spec['dists']))
+    dists = [old.get(lab) or rng.choice(['gaussian', 'gaussian', 'uniform']) for lab in labels]
+    return {'seed': rng.randrange(2 ** 31), 'd': len(labels), 'kind': spec['kind'], 'labels': labels, 'dists': dists,
+            'nrows': rng.choice([120, 200, 400])}
 
 
 def pick_value(rng, col, mode):
@@ -417,6 +465,14 @@ def gen_cases(ctx):
     n_models = 8 if ctx.tier == "quick" else 100
     specs = [make_spec(rng, d=3, kind='str'), make_spec(rng, d=2, kind='int'), make_spec(rng, d=4, kind='str')]
     specs += [make_spec(rng) for _ in range(max(0, n_models - len(specs)))]
+    # objects with a fit HISTORY (the model is a function of the CURRENT fit only): fit(A), conditional samples
+    # on every subset, fit(B) with the same labels; and A -> B -> back to A
+    hist = []
+    for spec in specs[:3] + (specs[3:9] if ctx.tier != 'quick' else []):
+        other = derive_spec(rng, spec)
+        hist.append(dict(other, refit_from=[spec]))
+        hist.append(dict(spec, refit_from=[spec, other]))
+    specs = specs[:3] + hist + specs[3:]
     for si, spec in enumerate(specs):
         model, df = build(spec)
         labels = spec['labels']
@@ -484,6 +540,7 @@ def run(ctx, lean):
         ctx.count(f'values:{tags["mode"]}')
         ctx.count(f'd:{spec["d"]}')
         ctx.count(f'labels:{spec["kind"]}')
+        ctx.count('fit-history:' + (f'{len(spec["refit_from"])}-earlier-fits' if 'refit_from' in spec else 'single-fit'))
         ctx.count('real:' + (res[0] if res[0] == 'ok' else 'err ' + res[1]))
         for h in rec.how:
             ctx.count('draws-by:' + h)
@@ -535,6 +592,7 @@ def run(ctx, lean):
 
 def describe(spec, items, container, n, tags):
     return {'columns': [str(x) for x in spec['labels']], 'dists': spec['dists'], 'seed': spec['seed'],
+            'earlier fits of the same object (table seeds)': [sp['seed'] for sp in spec.get('refit_from', [])],
             'conditions': [[str(k), v] for k, v in items], 'container': container, 'n': n, 'order': tags['order']}
 
 
@@ -773,6 +831,91 @@ CANON_SPEC = {'seed': 12, 'd': 3, 'kind': 'str', 'labels': ['b', 'c', 'a'], 'dis
               'nrows': 200}
 
 
+def frames_equal(a, b):
+    if not (isinstance(a, pd.DataFrame) and isinstance(b, pd.DataFrame)):
+        return False
+    if list(a.columns) != list(b.columns) or len(a) != len(b):
+        return False
+    x, y = a.to_numpy(dtype=float), b.to_numpy(dtype=float)
+    return bool(np.all((x == y) | ((x != x) & (y != y))))
+
+
+def same_fit(m1, m2):
+    """the two objects carry the same CURRENT fit (columns, correlation, marginal parameters)."""
+    try:
+        if list(m1.columns) != list(m2.columns):
+            return False
+        if not np.array_equal(m1.correlation.to_numpy(), m2.correlation.to_numpy()):
+            return False
+        return all(json.dumps(vc.jsonable(u1.to_dict()), sort_keys=True) == json.dumps(vc.jsonable(u2.to_dict()), sort_keys=True)
+                   for u1, u2 in zip(m1.univariates, m2.univariates))
+    except Exception:  # noqa
+        return False
+
+
+def history_case(ctx, spec, items, container, n, seed):
+    """HISTORY oracle (deterministic): `spec` carries `refit_from` - one object that was fitted on earlier
+    tables, used for conditional sampling on every subset, and fitted again.  A fitted model is its CURRENT
+    fit: sample(n, cond) under a fixed seed and the moments handed to the sampler must be those of a FRESH
+    object fitted once on the last table (bitwise output; moments within 1e-12), and equal the Schur values
+    of the object's own current correlation."""
+    hist_model, df = build(spec)
+    fresh_model, _ = build(plain(spec))
+    if not same_fit(hist_model, fresh_model):
+        # the refit itself left different parameters: fit-history is property C19's; not decided here
+        ctx.count('search:history:refit-state-differs(C19)')
+        return 0
+    res_h, rec_h = real_run(hist_model, container_of(items, container), n, seed)
+    res_f, rec_f = real_run(fresh_model, container_of(items, container), n, seed)
+    inp = payload(spec, items, container, n, seed)
+    ep = 'GaussianMultivariate.sample'
+    hist_txt = ' -> '.join(f'fit(table seed {sp["seed"]}, columns {[str(x) for x in sp["labels"]]}) + conditional samples'
+                           for sp in spec['refit_from']) + f' -> fit(table seed {spec["seed"]})'
+    if res_f[0] != 'ok':
+        return 1     # the fresh object fails too: reported by the per-call oracles
+    if res_h[0] != 'ok':
+        ctx.fail_input(ep, inp, {'history': hist_txt, 'after the history': res_h[2]},
+                       'same result as a fresh object fitted once on the last table (which returns a table)', CLS_HISTORY)
+        return 2
+    checks = 2
+    bad = None
+    if rec_h.mvn and rec_f.mvn:
+        mh, ch = rec_h.mvn[0][0], rec_h.mvn[0][1]
+        mf, cf = rec_f.mvn[0][0], rec_f.mvn[0][1]
+        if not (mh.shape == mf.shape and ch.shape == cf.shape and close_arr(mh, mf, 1e-12) and close_arr(ch, cf, 1e-12)):
+            bad = ({'history': hist_txt, 'mean handed to the sampler after the history': mh.tolist(), 'cov': ch.tolist()},
+                   f'moments of a fresh object fitted once on the last table: mean {mf.tolist()} cov {cf.tolist()}')
+    if bad is None and rec_h.gcd and rec_f.gcd and list(rec_h.gcd[0][2][2]) != list(rec_f.gcd[0][2][2]):
+        bad = ({'history': hist_txt, 'free columns after the history': [str(x) for x in rec_h.gcd[0][2][2]]},
+               f'free columns {[str(x) for x in rec_f.gcd[0][2][2]]} of a fresh object')
+    if bad is None and not frames_equal(res_h[1], res_f[1]):
+        bad = ({'history': hist_txt, 'sample after the history (first rows)': res_h[1].head(3).to_numpy().tolist()},
+               f'bitwise the seeded sample of a fresh object fitted once on the last table: '
+               f'{res_f[1].head(3).to_numpy().tolist()}')
+    if bad is not None:
+        ctx.fail_input(ep, inp, bad[0], bad[1], CLS_HISTORY)
+    return checks
+
+
+def history_specs(rng, deep):
+    """fit histories: same labels / one more column / one column fewer / A -> B -> back to A."""
+    out = []
+    bases = [CANON_SPEC] + [make_spec(rng, d=k) for k in ((2, 3, 4, 5) if deep else (2, 4))]
+    for base in bases:
+        other = derive_spec(rng, base)
+        out.append(('same-labels', dict(other, refit_from=[base])))
+        out.append(('back-to-first', dict(base, refit_from=[base, other])))
+        pool = STR_POOL if base['kind'] == 'str' else INT_POOL
+        extra = [x for x in pool if x not in base['labels']][0]
+        pos = rng.randrange(len(base['labels']) + 1)
+        more = derive_spec(rng, base, base['labels'][:pos] + [extra] + base['labels'][pos:])
+        out.append(('one-more-column', dict(more, refit_from=[base])))
+        out.append(('one-column-fewer', dict(base, refit_from=[more])))
+        if deep:
+            out.append(('three-fits', dict(more, refit_from=[base, other, derive_spec(rng, more)])))
+    return out
+
+
 def search(ctx, deep):
     rng = ctx.rng('search')
     checks = 0
@@ -829,6 +972,20 @@ def search(ctx, deep):
                 ctx.count('search:law:' + r + (':one-free-column' if single else ''))
                 if r == 'unidentified':
                     unidentified.append((spec, citems))
+    # fit histories: the conditional law must be that of the CURRENT fit
+    nhist = 0
+    for what, hspec in history_specs(rng, deep):
+        hmodel, hdf = build(hspec)
+        labels = hspec['labels']
+        subs = all_subsets(labels) if len(labels) <= 4 else subsets(rng, labels)
+        if not deep and len(subs) > 8:
+            subs = rng.sample(subs, 8)
+        for sub in subs:
+            items = [(k, pick_value(rng, hdf[k].to_numpy(), rng.choice(['inside', 'center', 'outside']))) for k in sub]
+            for it, container in [(items, 'dict')] + ([(items[::-1], 'series')] if len(items) >= 2 or rng.random() < 0.3 else []):
+                nhist += 1
+                ctx.count('search:history:' + what)
+                checks += history_case(ctx, hspec, it, container, rng.choice([1, 4]), rng.randrange(2 ** 32))
     nstat = 0
     if deep:
         # moment bands (n = 20000): every case the deterministic oracle could not decide, every
@@ -848,7 +1005,8 @@ def search(ctx, deep):
             nstat += 1 if c else 0
             if c:
                 ctx.count('search:stat' + (':one-free-column' if len(items) == spec['d'] - 1 else ''))
-    ctx.support = {'oracle_checks': checks, 'cases': ncases, 'law_cases': nlaw, 'statistical_cases': nstat,
+    ctx.support = {'oracle_checks': checks, 'cases': ncases, 'law_cases': nlaw, 'history_cases': nhist,
+                   'statistical_cases': nstat,
                    'deep': deep, 'failures': len(ctx.failing)}
 
 
@@ -859,7 +1017,9 @@ def replay(ctx, payload_):
     before = len(ctx.failing)
     keys = [k for k, _ in items]
     in_order = keys == [c for c in spec['labels'] if c in keys]
-    if payload_.get('class') == CLS_STAT:
+    if payload_.get('class') == CLS_HISTORY and 'refit_from' in spec:
+        history_case(ctx, spec, items, inp['container'], inp['n'], inp['seed'])
+    elif payload_.get('class') == CLS_STAT:
         if inp['n'] >= 5000:
             stat_case(ctx, spec, items, inp['n'], inp['seed'])
         else:
